@@ -477,7 +477,11 @@ Example C18_check_ok_examples :
   ok [18; 9; 3; 97; 34; 10; 0; 7; 34; 97; 92; 34; 92; 110; 34] /\
   bad [18; 9; 3; 97; 34; 10; 0; 6; 34; 97; 34; 92; 110; 34] /\
   bad [18; 10; 1; 1; 0; 4; 0; 13; 123; 34; 0; 0; 0; 0; 1; 1; 1; 0; 0; 47; 100; 105; 103; 114; 97; 112; 104; 32; 34; 0; 13; 92; 123; 92; 34; 34; 32; 123; 10; 110; 48; 32;
-       91; 108; 97; 98; 101; 108; 61; 34; 48; 34; 93; 59; 10; 110; 48; 32; 45; 62; 32; 110; 49; 59; 10; 125; 10; 1; 1; 1; 0].
+       91; 108; 97; 98; 101; 108; 61; 34; 48; 34; 93; 59; 10; 110; 48; 32; 45; 62; 32; 110; 49; 59; 10; 125; 10; 1; 1; 1; 0] /\
+  (* op 11 (two steps cut out of a real history on the one-node graph: SCC, then MakeBiGraph); the second step on a
+     different graph is rejected *)
+  ok [18; 11; 2; 16; 3; 1; 0; 3; 0; 1; 1; 0; 1; 1; 0; 1; 0; 1; 1; 0; 12; 4; 1; 0; 0; 1; 0; 1; 0; 1; 1; 1; 0] /\
+  bad [18; 11; 2; 16; 3; 1; 0; 3; 0; 1; 1; 0; 1; 1; 0; 1; 0; 1; 1; 0; 8; 4; 0; 0; 0; 0; 1; 1; 0].
 Proof.
   cbv zeta. repeat split; vm_compute; repeat eexists.
 Qed.
